@@ -37,22 +37,23 @@ type Run struct {
 	Seed  int64
 	Level string
 
-	mu          sync.Mutex
-	start       time.Time
-	Cov         map[string]any
-	Assumptions []string
-	samples     []any
-	nViol       int
-	violSigs    map[string]int
-	violOrder   []string
-	knownCount  map[string]int
-	knownEx     map[string]string
-	rules       map[string]Finding // rule name -> finding (restricted to this property)
-	counters    map[string]int
-	distinct    map[string]struct{}
-	evals       int
-	Exhaustive  bool
-	notes       []string
+	mu           sync.Mutex
+	start        time.Time
+	Cov          map[string]any
+	Assumptions  []string
+	samples      []any
+	nViol        int
+	violSigs     map[string]int
+	violOrder    []string
+	knownCount   map[string]int
+	knownEx      map[string]string
+	rules        map[string]Finding // rule name -> finding (restricted to this property)
+	counters     map[string]int
+	distinct     map[string]struct{}
+	evals        int
+	bulkDistinct int
+	Exhaustive   bool
+	notes        []string
 }
 
 func New(prop, tier, level string) *Run {
@@ -104,6 +105,17 @@ func (r *Run) Eval(key string, nontrivial bool) {
 	r.evals++
 	if nontrivial {
 		r.distinct[key] = struct{}{}
+	}
+	r.mu.Unlock()
+}
+
+// EvalBulk counts n evaluations that are distinct among themselves and identified as a group by key.
+func (r *Run) EvalBulk(key string, n int) {
+	r.mu.Lock()
+	r.evals += n
+	if _, seen := r.distinct[key]; !seen {
+		r.distinct[key] = struct{}{}
+		r.bulkDistinct += n - 1
 	}
 	r.mu.Unlock()
 }
@@ -212,7 +224,7 @@ func (r *Run) Finish(rule string) int {
 	}
 	cov := r.Cov
 	cov["evaluations"] = r.evals
-	cov["distinct_nontrivial"] = len(r.distinct)
+	cov["distinct_nontrivial"] = len(r.distinct) + r.bulkDistinct
 	cov["rule"] = rule
 	if len(r.samples) == 0 {
 		r.samples = append(r.samples, "no cases were explored")
@@ -239,7 +251,7 @@ func (r *Run) Finish(rule string) int {
 		return 2
 	}
 	fmt.Printf("%s %s: evaluations=%d distinct_nontrivial=%d violations=%d known_findings=%d exhaustive=%v wall=%.1fs\n",
-		r.Prop, r.Tier, r.evals, len(r.distinct), r.nViol, len(kf), r.Exhaustive, time.Since(r.start).Seconds())
+		r.Prop, r.Tier, r.evals, len(r.distinct)+r.bulkDistinct, r.nViol, len(kf), r.Exhaustive, time.Since(r.start).Seconds())
 	if r.nViol > 0 {
 		return 1
 	}
